@@ -73,6 +73,48 @@ theorem observed_bytes_immutable (i : Nat) (s s' : State) (ops : List Op) (rs : 
   rw [hgen j _ hcell, List.getElem?_eq_getElem hlt]
   rfl
 
+/-- The same at the level of memory: no operation ever writes into memory covered by a slice of
+the stable prefix (so a consumer that looks at those addresses again sees the same bytes).  Heap
+writes are `push_copy`'s (into freshly allocated arena bytes at or above the bump pointer) and
+`backfill`'s (into a slice that holds a pending placeholder, which is never in the stable prefix). -/
+theorem stable_slices_never_overwritten (i : Nat) (s s' : State) (op : Op) (r : Ret) (hinv : Inv i s)
+    (h : step i s op = some (s', r)) :
+    ∃ v, s.w.iov i = some v ∧ ∀ x ∈ v.slices.take v.stableN, s'.w.sliceBytes x = s.w.sliceBytes x := by
+  obtain ⟨v, hv, hi⟩ := hinv
+  refine ⟨v, hv, fun x hx => ?_⟩
+  by_cases hop : ∃ tok src, op = .backfill tok src
+  · obtain ⟨tok, src, rfl⟩ := hop
+    cases tok with
+    | none =>
+      simp only [step, Option.map_eq_some_iff] at h
+      obtain ⟨w', hw, he⟩ := h
+      cases he
+      unfold World.backfill at hw
+      rw [hv] at hw
+      simp only at hw
+      split at hw
+      · cases hw; rfl
+      · cases hw
+    | some e =>
+      have hvalid : ValidToken v (some e) src := by
+        apply Classical.byContradiction
+        intro hnv
+        rw [step_backfill_invalid i s v _ _ hv hnv] at h; cases h
+      obtain ⟨w', v', h1, _, _, _, _, _, _, _, _, hframe⟩ :=
+        World.backfill_spec s.w i v e src hv hi hvalid.1 hvalid.2
+      simp only [step, h1, Option.map_some, Option.some.injEq, Prod.mk.injEq] at h
+      obtain ⟨rfl, _⟩ := h
+      apply hframe x
+      have hle : v.stableN ≤ e.2.sliceIndex - v.consumedSlices := by
+        have := hi.noBrBelow_stableN e hvalid.1
+        omega
+      have : v.slices.take v.stableN = (v.slices.take (e.2.sliceIndex - v.consumedSlices)).take v.stableN := by
+        rw [List.take_take, Nat.min_eq_left hle]
+      rw [this] at hx
+      exact List.mem_of_mem_take hx
+  · have hop' : ∀ tok src, op ≠ .backfill tok src := fun tok src e => hop ⟨tok, src, e⟩
+    exact (step_mem i s s' op r v hv hi hop' h).frame hi x (List.mem_of_mem_take hx)
+
 /-- `has_pending_backrefs` — and therefore `iovs`, `flatten` and `stable_consumer`, which report
 success exactly when it is false — agrees with the abstract pipe: it is true exactly when some
 placeholder cell is still unfilled. -/
